@@ -333,6 +333,15 @@ def run(P, R, tier):
             R.check(not rowdep, 'C20.e', f, comp, 'every GeoDataFrame input takes part in the agreement, whatever its number of rows',
                     f'inputs are filtered by `{norm(rowdep[0]) if rowdep else ""}`: inputs without rows are ignored, so a concat of empty frames (every Dask meta computation, empty selections) '
                     'loses the active geometry and falls back to the first geometry column', construct='inputs taking part in the agreement')
+            # only inputs whose recorded active geometry is still one of their geometry columns have a vote: a column subset keeps the NAME of an active
+            # geometry it no longer contains (`_geometry` is copied by pandas), and such a stale name must not veto the agreement of the real ones
+            valid = any((isinstance(x, ast.Call) and isinstance(x.func, ast.Attribute) and x.func.attr == '_has_valid_geometry' and isinstance(x.func.value, ast.Name) and x.func.value.id == var)
+                        or (isinstance(x, ast.Compare) and len(x.ops) == 1 and isinstance(x.ops[0], ast.In) and norm(x.left) == f'{var}._geometry'
+                            and norm(x.comparators[0]) in (var, f'{var}.columns'))
+                        for cond in gen.ifs for x in ast.walk(cond))
+            R.check(valid, 'C20.e', f, comp, 'only inputs with a valid active geometry take part in the agreement',
+                    f'`{norm(comp)}` counts every input that records an active geometry NAME, valid or not: a column subset that no longer contains its recorded geometry column '
+                    'still votes, the inputs then "disagree" and the result of merge / concat / sjoin has no (or the wrong) active geometry', construct='only valid geometries vote')
         R.floor('C20.e', 'geometry agreement comprehensions in __finalize__', ncomp, 1)
         R.check(agrees, 'C20.e', f, None, 'the active geometry is adopted only when all geo inputs agree on it', 'the active geometry is adopted without checking that the inputs agree',
                 construct='len(geometries) == 1', nontrivial=False)
